@@ -12,7 +12,8 @@
 (*                                                                         *)
 (* The variables reg / out always take the OBSERVED values, and            *)
 (*  (i)  the property definitions of Cert.tla are evaluated on them        *)
-(*       (T_Steps, T_Unique, T_ListingsTotal, T_ListingComplete): verdict; *)
+(*       (T_Steps, T_NamedAccount, T_Unique, T_ListingsTotal, T_LookupExact,  *)
+(*       T_ListingComplete): verdict; *)
 (*  (ii) every step and query result is compared with what the spec's      *)
 (*       action yields from the previous observed registry: mismatches are *)
 (*       counted in `drift` and printed, never fatal.                      *)
@@ -40,11 +41,14 @@ RegOf(ents) ==
              [st |-> ents[i].st, b |-> IF <<ents[i].o, ents[i].s>> = <<o, s>> THEN ents[i].b ELSE Foreign]]]
 
 \* "at most once per owner and serial": no two store records hold a certificate of the same owner and serial,
-\* no two are registered under the same owner and serial, and each holds the certificate of its place
+\* no two are registered under the same owner and serial
 ProjUnique(ents) ==
-    /\ \A i \in DOMAIN ents, j \in DOMAIN ents :
-          (ents[i].o = ents[j].o /\ ents[i].s = ents[j].s) \/ PlaceOf(ents[i]) = PlaceOf(ents[j]) => i = j
-    /\ \A i \in DOMAIN ents : PlaceOf(ents[i]) = <<ents[i].o, ents[i].s>>
+    \A i \in DOMAIN ents, j \in DOMAIN ents :
+        (ents[i].o = ents[j].o /\ ents[i].s = ents[j].s) \/ PlaceOf(ents[i]) = PlaceOf(ents[j]) => i = j
+
+\* "registered ... by the account named in it": what is registered under an owner and serial is a certificate
+\* that names that owner (subject) and carries that serial
+ProjNamed(ents) == \A i \in DOMAIN ents : PlaceOf(ents[i]) = <<ents[i].o, ents[i].s>>
 
 ActOf(e) == [k |-> e.ev, signer |-> e.signer, mo |-> e.mo, o |-> e.o, s |-> e.s, b |-> e.b, ok |-> e.ok]
 
@@ -99,6 +103,7 @@ T_Steps == [][out'.k = "load" \/ StepProps(reg, reg', out')]_tvars
 Fail(name, i) == PrintT(<<"QFAIL", name, l, i>>) /\ FALSE
 
 T_Unique == l > 0 => ProjUnique(Trace[l].reg)
+T_NamedAccount == l > 0 => ProjNamed(Trace[l].reg)
 T_ListingsTotal ==
     l > 0 => \A i \in DOMAIN Trace[l].q : QTotal(Trace[l].q[i]) \/ Fail("ListingsTotal", i)
 T_LookupExact ==
